@@ -9,6 +9,7 @@ From MomoCommon Require Import GenPrelude.
 From C10 Require Import Machine Merge MergeProofs.
 From C10 Require Gen_Holder Gen_HolderTree.
 Import ListNotations.
+Set Default Timeout 120.   (* robustness: no tactic may run away on a regenerated term *)
 Local Open Scope Z_scope.
 
 (* abstraction: the flag says whether the buffer holds an item *)
